@@ -8,7 +8,7 @@ C11 = ["D1", "D1b", "D2", "D2c", "D3", "D5", "D6", "D7", "D9"]
 def S(xs): return "{" + ", ".join('"%s"' % x for x in xs) + "}"
 def cfg(name, module_invs, prelude, fresh, maxprod, maxtab, maxdepth, decls, forms, values, stmts, maxstmts, emit=True, bug="", devs=None, exc=None):
     devs = DEVS if devs is None else devs
-    exc = (C11 + DEVS + ["InvisibleCallee", "MethodAsRef", "HiddenNameInDeferred"]) if exc is None else exc
+    exc = (C11 + DEVS + ["InvisibleCallee", "MethodAsRef", "HiddenNameInDeferred", "BankFieldUnitInDeferred"]) if exc is None else exc
     s = ("CONSTANTS\n  Prelude <- %s\n  Fresh <- %s\n  PreScopes = {\"_SB_\"}\n  MaxProd = %d  MaxTables = %d  MaxDepth = %d\n  Decls = %s\n  Forms = %s\n"
          "  Values = %s\n  Stmts = %s  MaxStmts = %d\n  Devs = %s\n  Excluded = %s\n  Emit = %s  Bug = \"%s\"\nINIT Init\nNEXT Next\n%sCHECK_DEADLOCK FALSE\n") % (
         prelude, fresh, maxprod, maxtab, maxdepth, S(decls), S(forms), S(values), S(stmts), maxstmts, S(devs), S(exc),
